@@ -18,6 +18,19 @@
  *      after release, SD ids (stale ids alias: known, key sd-stale-id-aliases), bit ids after Hendbitaccess (forked), ids of one
  *      interface given to another (forked).
  *   T ids sdpack <slot> <idx> => <SDstart id>,<SDselect id>,<SDgetdimid id>   ties the generated id expressions to real ids.
+ *   C  SPECIAL elements (tag 1500: linked-block, compressed, chunked, chunked with compressed chunks) reached through several access
+ *      ids at once, started through the SAME or through DIFFERENT file ids of one path (TIED):
+ *        T ids startsp <h> <ref> <kind O|L|C|K> <write>  => a<k> | fail
+ *      The special information of such an element holds access elements of its own (the chunk-table Vdata of a chunked element,
+ *      the data element of a compressed one), started through the file id of the access record that read it, and is shared and
+ *      reference-counted between the access records of ONE file id.  `counts` shows them in the attach counter; every order of
+ *      Hendaccess / Hclose over the ids; data read through every id after every release; a refused or accepted Hclose is judged
+ *      against the harness's own list of what the caller has attached through that id (keys ids-close-refused-without-own-aid,
+ *      ids-close-under-own-aid); after the teardown Hopen(DFACC_CREATE) of every path must succeed (ids-state-retained-after-release).
+ *   D  the same at the level of the other interfaces, each scenario in a forked child with a file of its own (oracles only): H level
+ *      with writes (hshare), two SDstart sessions of one path (sd2), two GRstart on two Hopen ids (gr2), one vdata attached through
+ *      two Hopen ids (vs2): the same data set / image / vdata selected through both, read (and written) alternately, released in
+ *      every interleaving, every release must return what the attach counts demand, the other handle must keep working.
  */
 #include "hdf.h"
 #include "mfhdf.h"
@@ -26,10 +39,20 @@
 #include "hk.h"
 #include "workloads.h"
 #include <sys/wait.h>
+#include <sys/mman.h>
 
 #define MAXH 160
 static int32 fidv[MAXH], aidv[MAXH]; static int nfid, naid;
 static int f_live[MAXH], f_path[MAXH], a_live[MAXH];
+/* what the CALLER knows about its access ids: the file id each was started through, the element of the 1500 series (0 = none),
+   write access, "another id wrote the element since" (no data comparison), "shares a chunk cache whose creator is gone" */
+static int a_f[MAXH], a_ref[MAXH], a_wr[MAXH], a_stale[MAXH], a_unsafe[MAXH];
+/* the mixed series of tag 1500 (ref = position + 1): O ordinary, L linked-block, C compressed (RLE), K chunked, Z chunked with RLE chunks,
+   X external (its information record, shared like that of L and K, holds the external FILE) */
+static const char kinds[] = "OLLCOKCOLZX";
+#define NSER 11
+#define SPLEN 40
+static uint8 ser_data[NSER][64]; static int ser_len[NSER];
 static char paths[4][800];
 static int open_cnt[4];
 
@@ -66,6 +89,14 @@ static void toka(char *b, int i) { if (i >= 0 && i < naid) sprintf(b, "a%d", i);
 static int pick_live(const int *live, int n) { int c = 0; for (int i = 0; i < n; i++) c += live[i]; if (!c) return -1; int k = (int)hk_range(0, c - 1); for (int i = 0; i < n; i++) if (live[i] && k-- == 0) return i; return -1; }
 static int pick_f(void) { int c = (int)hk_range(0, 99); if (nfid == 0 || c < 3) return nfid + (int)hk_range(0, 3); if (c < 78) { int i = pick_live(f_live, nfid); if (i >= 0) return i; } return (int)hk_range(0, nfid - 1); }
 static int pick_a(void) { int c = (int)hk_range(0, 99); if (naid == 0 || c < 3) return naid + (int)hk_range(0, 3); if (c < 75) { int i = pick_live(a_live, naid); if (i >= 0) return i; } return (int)hk_range(0, naid - 1); }
+
+static int new_aid(int32 id, int f, int ref, int wr)
+{
+    int a = naid++; aidv[a] = id; a_live[a] = 1; a_f[a] = f; a_ref[a] = ref; a_wr[a] = wr; a_stale[a] = 0; a_unsafe[a] = 0;
+    return a;
+}
+/* does the CALLER still have an access element attached that it started through file id number f? */
+static int caller_owns(int f) { for (int q = 0; q < naid; q++) if (a_live[q] && a_f[q] == f) return 1; return 0; }
 
 static void t_counts(int f)
 {
@@ -161,6 +192,24 @@ static void block_sd(int k)
     (void)k;
 }
 
+/* one element of kind O / L / C / K / Z holding data[0..len) */
+static int mk_elem(int32 fid, uint16 tag, uint16 ref, char kind, const uint8 *data, int len)
+{
+    int32 aid = FAIL;
+    switch (kind) {
+        case 'O': return Hputelement(fid, tag, ref, data, len) == len ? SUCCEED : FAIL;
+        case 'L': aid = HLcreate(fid, tag, ref, 16, 2); break;
+        case 'X': { char ext[900]; const char *fn = NULL; intn at = 0; if (Hfidinquire(fid, (char **)&fn, &at, &at) == FAIL || fn == NULL) return FAIL; snprintf(ext, sizeof ext, "%s.x%d", fn, (int)ref); unlink(ext); aid = HXcreate(fid, tag, ref, ext, 0, 0); } break;
+        case 'C': { comp_info ci; model_info mi; memset(&ci, 0, sizeof ci); memset(&mi, 0, sizeof mi); aid = HCcreate(fid, tag, ref, COMP_MODEL_STDIO, &mi, COMP_CODE_RLE, &ci); } break;
+        default: { HCHUNK_DEF c; DIM_DEF pd[1]; uint8 fill = 0; comp_info ci; model_info mi; memset(&ci, 0, sizeof ci); memset(&mi, 0, sizeof mi); memset(&c, 0, sizeof c);
+                   c.num_dims = 1; c.nt_size = 1; c.chunk_size = 8; c.pdims = pd; c.comp_type = COMP_CODE_NONE; c.model_type = COMP_MODEL_STDIO;
+                   if (kind == 'Z') { c.chunk_flag = SPECIAL_COMP; c.comp_type = COMP_CODE_RLE; c.cinfo = &ci; c.minfo = &mi; }
+                   pd[0].dim_length = len; pd[0].chunk_length = 8; pd[0].distrib_type = 1; aid = HMCcreate(fid, tag, ref, 1, 1, &fill, &c); } break; }
+    if (aid == FAIL) return FAIL;
+    int ok = Hwrite(aid, len, data) == len;
+    return (Hendaccess(aid) != FAIL && ok) ? SUCCEED : FAIL;
+}
+
 /* Hnextread walk over the mixed series of tag 1500 of the rich file, through the ONLY file id of that file and with no other
  * access element attached: whatever the walk does, the file must stay protected exactly as long as the walking aid is attached.
  * Every call is tied to the model (nextread is net zero on the attach counter). */
@@ -171,7 +220,7 @@ static int walk_block(int f)
     int32 aid = Hstartread(fid, 1500, DFREF_WILDCARD);
     printf("T ids startaccess %s 1 0 => ", hb);
     if (aid == FAIL) { printf("fail\n"); hk_fail("ids-walk", "Hstartread(1500, wildcard) fails"); return 0; }
-    int a = naid; aidv[naid] = aid; a_live[naid] = 1; printf("a%d\n", naid++); toka(ab, a);
+    int a = new_aid(aid, f, 0, 0); printf("a%d\n", a); toka(ab, a);
     int maxsteps = hk_chance(60) ? 99 : (int)hk_range(0, 8), steps = 0;   /* run off the end, or stop somewhere (also on a special element) */
     uint8 buf[64];
     for (;;) {
@@ -194,7 +243,7 @@ static int walk_block(int f)
     /* a later unrelated access element must still protect the file */
     int32 a2 = Hstartread(fid, 1000, 1); printf("T ids startaccess %s 1 0 => ", hb);
     if (a2 == FAIL) { printf("fail\n"); hk_fail("ids-walk", "Hstartread after the walk fails"); }
-    else { int k2 = naid; aidv[naid] = a2; a_live[naid] = 1; printf("a%d\n", naid++); char ab2[16]; toka(ab2, k2);
+    else { int k2 = new_aid(a2, f, 0, 0); printf("a%d\n", k2); char ab2[16]; toka(ab2, k2);
         long c = Hclose(fid); printf("T ids close %s => %s\n", hb, c == FAIL ? "fail" : "ok");
         if (c != FAIL) { hk_fail("ids-walk-attach-low", "after a walk a new access element no longer protects the file (attach counter too low)"); f_live[f] = 0; open_cnt[0]--; a_live[k2] = 0; return 1; }
         long e2 = Hendaccess(a2); printf("T ids endaccess %s => %s\n", ab2, e2 == FAIL ? "fail" : "ok"); a_live[k2] = 0; }
@@ -208,22 +257,358 @@ static int walk_block(int f)
     return 1;
 }
 
+/* ------------------------------------------------------------------ C: special elements shared between access ids (tied) */
+static int a_creator[MAXH], a_wrote[MAXH];
+static char kind_tok(int ref) { char k = kinds[ref - 1]; return k == 'Z' ? 'K' : k == 'X' ? 'L' : k; }
+static int is_chunked(int ref) { return ref > 0 && (kinds[ref - 1] == 'K' || kinds[ref - 1] == 'Z'); }
+static int fid_writable(int f) { filerec_t *fr = (f < nfid && f_live[f]) ? HAatom_object(fidv[f]) : NULL; return fr && (fr->access & DFACC_WRITE); }
+
+/* the caller has ended access element a (a real Hendaccess of a live id was made).  The chunk cache of a chunked element is shared
+   by the access records of one file id; its page-in/page-out cookie is the access record that opened the element FIRST
+   (known finding ids-shared-special:chunk-cache-cookie-is-first-accrec): once that one is gone the others are not read in process */
+static void mark_ended(int a)
+{
+    a_live[a] = 0;
+    if (is_chunked(a_ref[a]) && a_creator[a]) for (int q = 0; q < naid; q++) if (a_live[q] && a_f[q] == a_f[a] && a_ref[q] == a_ref[a]) a_unsafe[q] = 1;
+}
+
+/* Hstartaccess on element <ref> of the series through file id number f (live, released or never issued) */
+static int sp_start(int f, int ref, int write)
+{
+    char hb[16]; tokf(hb, f); fflush(stdout);
+    int32 id = Hstartaccess(F(f), 1500, (uint16)ref, write ? DFACC_RDWR : DFACC_READ);
+    printf("T ids startsp %s %d %c %d => ", hb, ref, kind_tok(ref), write);
+    if (id == FAIL) { printf("fail\n");
+        if (f < nfid && f_live[f] && (!write || fid_writable(f))) hk_fail("ids-shared-special:start-failed", "Hstartaccess(%s) of element %c (1500,%d) through a live file id fails", write ? "RDWR" : "READ", kinds[ref - 1], ref);
+        return -1; }
+    int creator = 1, unsafe = 0;
+    for (int q = 0; q < naid; q++) if (a_live[q] && a_f[q] == f && a_ref[q] == ref) { creator = 0; if (a_unsafe[q]) unsafe = 1; }
+    int a = new_aid(id, f, ref, write); printf("a%d\n", a);
+    a_creator[a] = creator; a_unsafe[a] = is_chunked(ref) && unsafe; a_wrote[a] = 0;
+    /* a compressed element rewritten through an access id that is still open: the new bytes are in that id's coder state */
+    if (kinds[ref - 1] == 'C') for (int q = 0; q < naid; q++) if (q != a && a_live[q] && a_ref[q] == ref && a_wrote[q]) a_stale[a] = 1;
+    /* an external element: one buffered stream per information record (per file id); what was written through a stream that is still
+       open may not be in the file yet, and a stream that has buffered the old bytes keeps delivering them to everyone who shares it */
+    if (kinds[ref - 1] == 'X') for (int q = 0; q < naid; q++) if (q != a && a_live[q] && a_ref[q] == ref && ((a_f[q] != f && a_wrote[q]) || (a_f[q] == f && a_stale[q]))) a_stale[a] = 1;
+    if (!(f < nfid && f_live[f])) hk_fail("ids-stale-accepted:Hstartaccess", "Hstartaccess on a released / never issued file id succeeds");
+    hk_stat(creator ? "sp_start_first" : "sp_start_same_fid", 1);
+    for (int q = 0; q < naid; q++) if (q != a && a_live[q] && a_f[q] != f && a_ref[q] == ref && f < nfid && a_f[q] < nfid && f_path[a_f[q]] == f_path[f]) { hk_stat("sp_start_other_fid", 1); break; }
+    return a;
+}
+/* read a random range through a live access id of the series and compare with what the element holds */
+static void sp_read(int a)
+{
+    int i = a_ref[a] - 1, len = ser_len[i]; uint8 buf[64];
+    if (a_unsafe[a]) { hk_stat("sp_read_skipped_cookie_gone", 1); return; }
+    int pos = hk_chance(40) ? 0 : (int)hk_range(0, len - 1), n = hk_chance(50) ? len - pos : (int)hk_range(1, len - pos);
+    fflush(stdout);
+    if (Hseek(aidv[a], pos, DF_START) == FAIL) { if (!a_stale[a]) hk_fail("ids-shared-special:read-failed", "Hseek(%d) through a live access id of element %c (1500,%d) fails", pos, kinds[i], i + 1); return; }
+    long r = Hread(aidv[a], n, buf);
+    if (a_stale[a]) { hk_stat("sp_read_after_foreign_write", 1); return; }
+    if (r != n) hk_fail("ids-shared-special:read-failed", "Hread(%d@%d) through a live access id of element %c (1500,%d) returns %ld", n, pos, kinds[i], i + 1, r);
+    else if (memcmp(buf, ser_data[i] + pos, (size_t)n)) hk_fail("ids-shared-special:wrong-data", "Hread(%d@%d) through a live access id of element %c (1500,%d) delivers other bytes than the element holds", n, pos, kinds[i], i + 1);
+    hk_stat("sp_reads", 1);
+}
+/* overwrite in place through a live access id with write access (not on chunked elements here: see scenario hshare) */
+static void sp_write(int a)
+{
+    int i = a_ref[a] - 1, len = ser_len[i]; char k = kinds[i]; uint8 buf[64];
+    if (!a_wr[a] || is_chunked(a_ref[a]) || a_stale[a]) return;
+    int pos = k == 'C' ? 0 : (int)hk_range(0, len - 1), n = k == 'C' ? len : (int)hk_range(1, len - pos);
+    for (int j = 0; j < n; j++) buf[j] = hk_byte();
+    fflush(stdout);
+    if (Hseek(aidv[a], pos, DF_START) == FAIL || Hwrite(aidv[a], n, buf) != n) { hk_fail("ids-shared-special:write-failed", "in-place Hwrite(%d@%d) through a live access id of element %c (1500,%d) fails", n, pos, k, i + 1); a_stale[a] = 1; }
+    memcpy(ser_data[i] + pos, buf, (size_t)n); a_wrote[a] = 1;
+    /* a compressed element keeps coder state and buffers per access record: the others (and this one) are not compared any more */
+    if (k == 'C') for (int q = 0; q < naid; q++) if (a_live[q] && a_ref[q] == a_ref[a]) a_stale[q] = 1;
+    /* an external element: one buffered stream per information record, i.e. per file id */
+    if (k == 'X') for (int q = 0; q < naid; q++) if (a_live[q] && a_ref[q] == a_ref[a] && a_f[q] != a_f[a]) a_stale[q] = 1;
+    hk_stat("sp_writes", 1);
+}
+/* Hendaccess of a live access id: must succeed */
+static void sp_end(int a)
+{
+    char ab[16]; toka(ab, a); fflush(stdout);
+    long r = Hendaccess(aidv[a]); printf("T ids endaccess %s => %s\n", ab, r == FAIL ? "fail" : "ok");
+    if (r == FAIL) hk_fail("ids-release-failed:Hendaccess", "Hendaccess of a live access id fails (element (1500,%d) started through a file id that is still open)", a_ref[a]);
+    mark_ended(a);
+}
+/* Hclose of a live file id, judged against what the CALLER has attached through it */
+static long do_close(int f)
+{
+    char hb[16]; tokf(hb, f); int own = caller_owns(f); fflush(stdout);
+    long r = Hclose(fidv[f]); printf("T ids close %s => %s\n", hb, r == FAIL ? "fail" : "ok");
+    if (r == FAIL && !own) hk_fail("ids-close-refused-without-own-aid", "Hclose of a live file id fails although every access element the caller started through it has been ended");
+    if (r != FAIL && own) hk_fail("ids-close-under-own-aid", "Hclose of a file id succeeds while an access element started through it is attached");
+    if (r != FAIL) { f_live[f] = 0; open_cnt[f_path[f]]--; }
+    else { long u = Hnumber(fidv[f], DFTAG_WILDCARD); printf("T ids usefid %s => %s\n", hb, u == FAIL ? "fail" : "ok"); if (u == FAIL) hk_fail("ids-close-refused-unusable", "the file id is not usable after a refused Hclose"); }
+    return r;
+}
+static int do_open(int p, int acc)
+{
+    int32 id = Hopen(paths[p], acc, 0); printf("T ids open %d %d 1 => ", p, acc);
+    if (id == FAIL) { printf("fail\n"); return -1; }
+    fidv[nfid] = id; f_live[nfid] = 1; f_path[nfid] = p; open_cnt[p]++; printf("f%d\n", nfid); return nfid++;
+}
+static int hot_ref(void)
+{   /* chunked most of the time */
+    static const int ks[] = {6, 10}, cs[] = {4, 7}, ls[] = {2, 3, 9, 11}, os[] = {1, 5, 8};   /* "L": linked-block or external */
+    int c = (int)hk_range(0, 99);
+    return c < 50 ? ks[hk_range(0, 1)] : c < 70 ? cs[hk_range(0, 1)] : c < 90 ? ls[hk_range(0, 3)] : os[hk_range(0, 2)];
+}
+/* 2-3 file ids of the rich file (new ones, or ones the case already has), 2-5 access elements on 1-2 elements of the series through
+   them, then reads / in-place writes / counts / Hclose attempts / Hendaccess in random order until everything of the block is released */
+static void shared_block(void)
+{
+    int ids[3], nid = (int)hk_range(2, 3), hot[2], nhot = hk_chance(65) ? 1 : 2, mine[8], nmine = 0;
+    if (nfid > MAXH - 12 || naid > MAXH - 12) return;
+    for (int i = 0; i < nid; i++) { ids[i] = -1;
+        if (hk_chance(25)) { int c = 0; for (int q = 0; q < nfid; q++) if (f_live[q] && f_path[q] == 0) c++; if (c) { int k = (int)hk_range(0, c - 1); for (int q = 0; q < nfid; q++) if (f_live[q] && f_path[q] == 0 && k-- == 0) ids[i] = q; } }
+        if (ids[i] < 0) ids[i] = do_open(0, hk_chance(50) ? DFACC_READ : DFACC_RDWR);
+        if (ids[i] < 0) { hk_fail("ids-shared-special:open-failed", "Hopen of a path that exists fails"); nid = i; break; } }
+    if (nid < 1) return;
+    for (int i = 0; i < nhot; i++) hot[i] = hot_ref();
+    int want = (int)hk_range(2, 5);
+    for (int step = 0; step < 60; step++) {
+        int nl = 0; for (int i = 0; i < nmine; i++) nl += a_live[mine[i]];
+        if (nmine >= want && nl == 0) break;
+        int c = (int)hk_range(0, 99);
+        if (nmine < want && (c < 30 || nl == 0)) {
+            int f = ids[hk_range(0, nid - 1)]; if (!f_live[f]) continue;
+            int ref = hot[hk_range(0, nhot - 1)], wr = fid_writable(f) && !is_chunked(ref) && hk_chance(35);
+            int a = sp_start(f, ref, wr); if (a >= 0) mine[nmine++] = a; else want--;
+            continue; }
+        if (nl == 0) continue;
+        int a; do a = mine[hk_range(0, nmine - 1)]; while (!a_live[a]);
+        if (c < 55) sp_read(a);
+        else if (c < 63) sp_write(a);
+        else if (c < 70) t_counts(ids[hk_range(0, nid - 1)]);
+        else if (c < 82) { int f = ids[hk_range(0, nid - 1)]; if (f_live[f]) do_close(f); }
+        else sp_end(a);
+    }
+    for (int i = 0; i < nmine; i++) if (a_live[mine[i]]) sp_end(mine[i]);
+    /* every access element of the block is ended: each of its file ids closes unless the case has other elements attached through it */
+    for (int n = 0; n < 8; n++) { int f = ids[hk_range(0, nid - 1)]; if (f_live[f]) { t_counts(f); do_close(f); } }
+    hk_stat("shared_blocks", 1);
+}
+
+/* ------------------------------------------------------------------ D: scenarios in a forked child with a file of their own */
+static volatile int *scen_flag;      /* shared with the child: 1 = the child has reached the state of the known chunk-cache finding */
+static const char *scen_name = "";
+#define COOKIE_KEY "ids-shared-special:chunk-cache-cookie-is-first-accrec"
+static void scen_fail(const char *clause, const char *fmt, ...) __attribute__((format(printf, 2, 3)));
+static void scen_fail(const char *clause, const char *fmt, ...)
+{
+    char key[128], msg[600]; va_list ap; va_start(ap, fmt); vsnprintf(msg, sizeof msg, fmt, ap); va_end(ap);
+    if (scen_flag && *scen_flag) snprintf(key, sizeof key, "%s", COOKIE_KEY); else snprintf(key, sizeof key, "ids-two-handles:%s:%s", scen_name, clause);
+    hk_fail(key, "%s", msg);
+}
+#define SLOG(...) do { if (getenv("HK_SCEN_TRACE")) { printf("INFO scen " __VA_ARGS__); printf("\n"); } } while (0)
+#define MUST0(expr, what) do { if ((long)(expr) == FAIL) scen_fail("release-failed", "%s fails although nothing of the caller is attached any more below it", what); } while (0)
+static void recreate_check(const char *p)
+{
+    int32 id = Hopen(p, DFACC_CREATE, 0);
+    if (id == FAIL) scen_fail("state-retained-after-release", "Hopen(DFACC_CREATE) fails after every handle of the file was released (error %d: still counted as open)", (int)HEvalue(1));
+    else Hclose(id);
+}
+
+/* H level with writes: 1-2 file ids, 2-4 access elements on one chunked element (K or Z), same and different file ids, in-place
+   writes through any of them, every order of Hendaccess / Hclose, then a fresh session must find every byte written */
+static void scen_hshare(const char *p)
+{
+    uint8 want[64], buf[64]; int len = 48; char kind = hk_chance(65) ? 'K' : 'Z';
+    int32 fid = Hopen(p, DFACC_CREATE, 0); wl_fill(want, 64, 21);
+    if (fid == FAIL || mk_elem(fid, 1500, 1, kind, want, len) == FAIL || mk_elem(fid, 1500, 2, 'O', want, 30) == FAIL || Hclose(fid) == FAIL) { scen_fail("build", "file not built"); return; }
+    int nf = (int)hk_range(1, 2), wr = hk_chance(60); int32 f[2]; int flive[2] = {0, 0};
+    for (int i = 0; i < nf; i++) { f[i] = Hopen(p, wr ? DFACC_RDWR : DFACC_READ, 0); flive[i] = f[i] != FAIL; if (!flive[i]) { scen_fail("open-failed", "Hopen"); return; } }
+    int na = (int)hk_range(2, 4); int32 a[4]; int af[4], alive[4], creator[4], unsafe[4], stale[4], anyw = 0, wfid = (int)hk_range(0, nf - 1);   /* the chunk cache is per file id: writes go through the access ids of ONE file id */
+    for (int i = 0; i < na; i++) { af[i] = (int)hk_range(0, nf - 1); creator[i] = 1; unsafe[i] = 0; stale[i] = 0; for (int j = 0; j < i; j++) if (af[j] == af[i]) creator[i] = 0;
+        a[i] = Hstartaccess(f[af[i]], 1500, 1, wr ? DFACC_RDWR : DFACC_READ); alive[i] = a[i] != FAIL; if (!alive[i]) { scen_fail("start-failed", "Hstartaccess of the chunked element through a live file id"); return; } }
+    for (int step = 0; step < 40; step++) {
+        int nl = 0; for (int i = 0; i < na; i++) nl += alive[i]; if (!nl) break;
+        int i; do i = (int)hk_range(0, na - 1); while (!alive[i]);
+        int c = (int)hk_range(0, 99);
+        if (c < 45) { int pos = hk_chance(40) ? 0 : (int)hk_range(0, len - 1), n = hk_chance(50) ? len - pos : (int)hk_range(1, len - pos);
+            if (unsafe[i]) *scen_flag = 1;
+            long s = Hseek(a[i], pos, DF_START), r = s == FAIL ? FAIL : Hread(a[i], n, buf);
+            if (r != n) scen_fail("read-failed", "Hread(%d@%d) through a live access id returns %ld (element %c, %d file ids)", n, pos, r, kind, nf);
+            else if (!stale[i] && memcmp(buf, want + pos, (size_t)n)) scen_fail("wrong-data", "Hread(%d@%d) through a live access id delivers other bytes than were written (element %c)", n, pos, kind); }
+        else if (c < 65 && wr && af[i] == wfid) { int pos = (int)hk_range(0, len - 1), n = (int)hk_range(1, len - pos); for (int j = 0; j < n; j++) buf[j] = hk_byte();
+            if (unsafe[i]) *scen_flag = 1;
+            if (Hseek(a[i], pos, DF_START) == FAIL || Hwrite(a[i], n, buf) != n) scen_fail("write-failed", "in-place Hwrite(%d@%d) through a live access id fails (element %c)", n, pos, kind);
+            memcpy(want + pos, buf, (size_t)n); anyw = 1;
+            /* the chunk cache is per file id: the access ids of the other file id may hold the old chunk */
+            for (int j = 0; j < na; j++) if (alive[j] && af[j] != af[i]) stale[j] = 1; }
+        else if (c < 80) { int k = (int)hk_range(0, nf - 1); if (!flive[k]) continue; int own = 0; for (int j = 0; j < na; j++) if (alive[j] && af[j] == k) own = 1;
+            long r = Hclose(f[k]);
+            if (r == FAIL && !own) scen_fail("close-refused-without-own-aid", "Hclose of a file id fails although every access element started through it was ended");
+            if (r != FAIL && own) scen_fail("close-under-own-aid", "Hclose of a file id succeeds while an access element started through it is attached");
+            if (r != FAIL) flive[k] = 0; }
+        else { /* the dirty chunks of the cache are written by whoever is last, through the cookie */
+            int others = 0; for (int j = 0; j < na; j++) if (j != i && alive[j] && af[j] == af[i]) others++;
+            if (unsafe[i] && !others && anyw) *scen_flag = 1;
+            if (Hendaccess(a[i]) == FAIL) scen_fail("release-failed", "Hendaccess of a live access id fails (element %c, %d file ids)", kind, nf);
+            alive[i] = 0; if (creator[i]) for (int j = 0; j < na; j++) if (alive[j] && af[j] == af[i]) unsafe[j] = 1; }
+    }
+    for (int i = 0; i < na; i++) if (alive[i]) { int others = 0; for (int j = 0; j < na; j++) if (j != i && alive[j] && af[j] == af[i]) others++;
+        if (unsafe[i] && !others && anyw) *scen_flag = 1;
+        if (Hendaccess(a[i]) == FAIL) scen_fail("release-failed", "Hendaccess of a live access id fails (element %c)", kind); alive[i] = 0; if (creator[i]) for (int j = 0; j < na; j++) if (alive[j] && af[j] == af[i]) unsafe[j] = 1; }
+    for (int i = 0; i < nf; i++) if (flive[i]) MUST0(Hclose(f[i]), "Hclose after every access element was ended");
+    /* what a fresh session finds */
+    fid = Hopen(p, DFACC_READ, 0);
+    if (fid == FAIL) scen_fail("reopen", "Hopen(READ) after the session fails");
+    else { memset(buf, 0, sizeof buf); long r = Hgetelement(fid, 1500, 1, buf);
+        if (r != len) scen_fail("data-lost", "after the session Hgetelement of the chunked element returns %ld", r);
+        else if (memcmp(buf, want, (size_t)len)) scen_fail("data-lost", "bytes written through a valid access id of the chunked element %c are not in the file after every handle was released", kind);
+        Hclose(fid); }
+    *scen_flag = 0;
+    recreate_check(p);
+}
+
+/* two SDstart sessions of one path: the same data set selected through both, read alternately (written in place through one),
+   SDendaccess / SDend in every interleaving; the session that is left keeps working */
+#define SD_ND 4
+static void scen_sd2(const char *p)
+{
+    static int32 dat[SD_ND][64]; int32 dims[SD_ND][2] = {{8, 6}, {6, 5}, {5, 4}, {6, 4}}; int chunked = 0, comp = 1, plain = 2, unl = 3;
+    int32 sd = SDstart(p, DFACC_CREATE); if (sd == FAIL) { scen_fail("build", "SDstart(CREATE)"); return; }
+    for (int d = 0; d < SD_ND; d++) { int32 dm[2] = {dims[d][0], dims[d][1]}, st[2] = {0, 0}; char nm[16]; snprintf(nm, sizeof nm, "ds%d", d);
+        for (int i = 0; i < 64; i++) dat[d][i] = (int32)(d * 1000 + i * 7);
+        if (d == unl) dm[0] = SD_UNLIMITED;
+        int32 s = SDcreate(sd, nm, DFNT_INT32, 2, dm);
+        if (d == chunked) { HDF_CHUNK_DEF c; memset(&c, 0, sizeof c); int fl = HDF_CHUNK;
+            if (hk_chance(50)) { fl |= HDF_COMP; c.comp.chunk_lengths[0] = 4; c.comp.chunk_lengths[1] = 3; c.comp.comp_type = hk_chance(50) ? COMP_CODE_DEFLATE : COMP_CODE_RLE; c.comp.cinfo.deflate.level = 3; }
+            else { c.chunk_lengths[0] = 4; c.chunk_lengths[1] = 3; }
+            if (SDsetchunk(s, c, fl) == FAIL) scen_fail("build", "SDsetchunk"); }
+        if (d == comp) { comp_info ci; memset(&ci, 0, sizeof ci); ci.deflate.level = 4; if (SDsetcompress(s, hk_chance(50) ? COMP_CODE_DEFLATE : COMP_CODE_RLE, &ci) == FAIL) scen_fail("build", "SDsetcompress"); }
+        int32 ed[2] = {dims[d][0], dims[d][1]}; if (d == unl) ed[0] = 3;
+        if (SDwritedata(s, st, NULL, ed, dat[d]) == FAIL) scen_fail("build", "SDwritedata");
+        SDendaccess(s); }
+    { /* the rest of the unlimited data set is appended after other data sets were written: its element becomes a linked-block one */
+      int32 s = SDselect(sd, unl), st[2] = {3, 0}, ed[2] = {dims[unl][0] - 3, dims[unl][1]}; if (SDwritedata(s, st, NULL, ed, dat[unl] + 3 * dims[unl][1]) == FAIL) scen_fail("build", "append"); SDendaccess(s); }
+    if (SDend(sd) == FAIL) { scen_fail("build", "SDend"); return; }
+    int acc[2] = {hk_chance(50) ? DFACC_READ : DFACC_RDWR, hk_chance(50) ? DFACC_READ : DFACC_RDWR};
+    int32 sdv[2], sv[2] = {FAIL, FAIL}; int live[2] = {1, 1}, stale[2] = {0, 0}, pending[2] = {0, 0};   /* pending: wrote and has not ended access since */
+    for (int x = 0; x < 2; x++) { sdv[x] = SDstart(p, acc[x]); if (sdv[x] == FAIL) { scen_fail("open-failed", "SDstart of a path that is open in another SD session fails"); return; } }
+    int d = hk_chance(55) ? chunked : (int)hk_range(0, SD_ND - 1); int writes = 0, wsess = (int)hk_range(0, 1);   /* chunks are cached per session and written back when it ends access: ONE session writes */
+    for (int step = 0; step < 30 && (live[0] || live[1]); step++) {
+        int x = (int)hk_range(0, 1); if (!live[x]) x = 1 - x;
+        int c = (int)hk_range(0, 99);
+        SLOG("sd2 step %d session %d (acc %d) choice %d selected %d/%d stale %d/%d pending %d/%d ds %d", step, x, acc[x], c, sv[0] != FAIL, sv[1] != FAIL, stale[0], stale[1], pending[0], pending[1], d);
+        if (sv[x] == FAIL) { if (c < 80) { sv[x] = SDselect(sdv[x], d); if (sv[x] == FAIL) scen_fail("select-failed", "SDselect through a live SD id fails"); if (!pending[1 - x]) stale[x] = 0; continue; } }
+        if (c < 50 && sv[x] != FAIL) { int32 st[2], ed[2], out[64]; st[0] = (int32)hk_range(0, dims[d][0] - 1); st[1] = (int32)hk_range(0, dims[d][1] - 1);
+            if (hk_chance(50)) { st[0] = st[1] = 0; ed[0] = dims[d][0]; ed[1] = dims[d][1]; } else { ed[0] = (int32)hk_range(1, dims[d][0] - st[0]); ed[1] = (int32)hk_range(1, dims[d][1] - st[1]); }
+            if (SDreaddata(sv[x], st, NULL, ed, out) == FAIL) scen_fail("read-failed", "SDreaddata through a live data set id fails (data set %d, session %d of two, other session %s)", d, x, live[1 - x] ? "open" : "already ended");
+            else if (!stale[x]) { int bad = 0; for (int i = 0; i < ed[0]; i++) for (int j = 0; j < ed[1]; j++) if (out[i * ed[1] + j] != dat[d][(st[0] + i) * dims[d][1] + st[1] + j]) bad = 1;
+                if (bad) scen_fail("wrong-data", "SDreaddata through a live data set id delivers other values than the data set holds (data set %d, other session %s)", d, live[1 - x] ? "open" : "already ended"); } }
+        else if (c < 60 && sv[x] != FAIL && acc[x] == DFACC_RDWR && x == wsess && (d == chunked || d == plain) && writes < 3) { int32 st[2] = {0, 0}, ed[2] = {dims[d][0], dims[d][1]};
+            for (int i = 0; i < 64; i++) dat[d][i] += 100000;
+            if (SDwritedata(sv[x], st, NULL, ed, dat[d]) == FAIL) scen_fail("write-failed", "SDwritedata (in place) through a live data set id fails");
+            writes++; pending[x] = 1; stale[1 - x] = 1; /* the other session may hold the old chunks; it is compared again once the writer has ended access and it has selected anew */ }
+        else if (c < 75 && sv[x] != FAIL) { MUST0(SDendaccess(sv[x]), "SDendaccess of a live data set id"); sv[x] = FAIL; pending[x] = 0; }
+        else if (c >= 88) { if (sv[x] != FAIL && hk_chance(60)) { MUST0(SDendaccess(sv[x]), "SDendaccess of a live data set id"); }
+            sv[x] = FAIL; pending[x] = 0; MUST0(SDend(sdv[x]), "SDend of a live SD id (the other session of the path does not hold anything of this one)"); live[x] = 0; }
+    }
+    for (int x = 0; x < 2; x++) if (live[x]) { if (sv[x] != FAIL) MUST0(SDendaccess(sv[x]), "SDendaccess of a live data set id"); MUST0(SDend(sdv[x]), "SDend of a live SD id"); }
+    /* a fresh session sees what was written */
+    sd = SDstart(p, DFACC_READ); if (sd == FAIL) scen_fail("reopen", "SDstart(READ) after both sessions ended fails");
+    else { int32 s = SDselect(sd, d), st[2] = {0, 0}, ed[2] = {dims[d][0], dims[d][1]}, out[64];
+        if (SDreaddata(s, st, NULL, ed, out) == FAIL || memcmp(out, dat[d], sizeof(int32) * (size_t)(ed[0] * ed[1]))) scen_fail("data-lost", "a fresh SD session does not read what the two sessions left in data set %d", d);
+        SDendaccess(s); SDend(sd); }
+    recreate_check(p);
+}
+
+/* two Hopen ids of one path, GRstart on each, the same image selected through both */
+static void scen_gr2(const char *p)
+{
+    static uint8 img[3][48]; int32 dims[3][2] = {{8, 6}, {6, 5}, {5, 4}};
+    int32 fid = Hopen(p, DFACC_CREATE, 0), gr = fid == FAIL ? FAIL : GRstart(fid); if (gr == FAIL) { scen_fail("build", "GRstart"); return; }
+    for (int d = 0; d < 3; d++) { char nm[16]; snprintf(nm, sizeof nm, "im%d", d); int32 st[2] = {0, 0}; wl_fill(img[d], 48, 30 + d);
+        int32 ri = GRcreate(gr, nm, 1, DFNT_UINT8, MFGR_INTERLACE_PIXEL, dims[d]);
+        if (d == 0) { HDF_CHUNK_DEF c; memset(&c, 0, sizeof c); int fl = HDF_CHUNK;
+            if (hk_chance(50)) { fl |= HDF_COMP; c.comp.chunk_lengths[0] = 4; c.comp.chunk_lengths[1] = 3; c.comp.comp_type = hk_chance(50) ? COMP_CODE_DEFLATE : COMP_CODE_RLE; c.comp.cinfo.deflate.level = 3; }
+            else { c.chunk_lengths[0] = 4; c.chunk_lengths[1] = 3; }
+            if (GRsetchunk(ri, c, fl) == FAIL) scen_fail("build", "GRsetchunk"); }
+        if (d == 1) { comp_info ci; memset(&ci, 0, sizeof ci); ci.deflate.level = 4; if (GRsetcompress(ri, hk_chance(50) ? COMP_CODE_DEFLATE : COMP_CODE_RLE, &ci) == FAIL) scen_fail("build", "GRsetcompress"); }
+        if (GRwriteimage(ri, st, NULL, dims[d], img[d]) == FAIL) scen_fail("build", "GRwriteimage"); GRendaccess(ri); }
+    if (GRend(gr) == FAIL || Hclose(fid) == FAIL) { scen_fail("build", "GRend/Hclose"); return; }
+    int32 f[2], g[2] = {FAIL, FAIL}, r[2] = {FAIL, FAIL}; int flive[2] = {1, 1};
+    for (int x = 0; x < 2; x++) { f[x] = Hopen(p, hk_chance(50) ? DFACC_READ : DFACC_RDWR, 0); if (f[x] == FAIL) { scen_fail("open-failed", "Hopen"); return; } }
+    int d = hk_chance(55) ? 0 : (int)hk_range(0, 2);
+    for (int step = 0; step < 30 && (flive[0] || flive[1]); step++) {
+        int x = (int)hk_range(0, 1); if (!flive[x]) x = 1 - x;
+        int c = (int)hk_range(0, 99);
+        if (g[x] == FAIL) { if (c < 85) { g[x] = GRstart(f[x]); if (g[x] == FAIL) scen_fail("start-failed", "GRstart on a live file id fails"); } else { MUST0(Hclose(f[x]), "Hclose of a file id whose GR session is ended"); flive[x] = 0; } continue; }
+        if (r[x] == FAIL) { if (c < 80) { r[x] = GRselect(g[x], d); if (r[x] == FAIL) scen_fail("select-failed", "GRselect through a live GR id fails"); } else { MUST0(GRend(g[x]), "GRend of a live GR id"); g[x] = FAIL; } continue; }
+        if (c < 65) { int32 st[2], ed[2]; uint8 out[48]; st[0] = (int32)hk_range(0, dims[d][0] - 1); st[1] = (int32)hk_range(0, dims[d][1] - 1);
+            if (hk_chance(50)) { st[0] = st[1] = 0; ed[0] = dims[d][0]; ed[1] = dims[d][1]; } else { ed[0] = (int32)hk_range(1, dims[d][0] - st[0]); ed[1] = (int32)hk_range(1, dims[d][1] - st[1]); }
+            if (GRreadimage(r[x], st, NULL, ed, out) == FAIL) scen_fail("read-failed", "GRreadimage through a live image id fails (image %d, other file id %s)", d, flive[1 - x] ? "open" : "closed");
+            else { int bad = 0; for (int j = 0; j < ed[1]; j++) for (int i = 0; i < ed[0]; i++) if (out[j * ed[0] + i] != img[d][(st[1] + j) * dims[d][0] + st[0] + i]) bad = 1;
+                if (bad) scen_fail("wrong-data", "GRreadimage through a live image id delivers other pixels than the image holds (image %d, other file id %s)", d, flive[1 - x] ? "open" : "closed"); } }
+        else { MUST0(GRendaccess(r[x]), "GRendaccess of a live image id"); r[x] = FAIL; }
+    }
+    for (int x = 0; x < 2; x++) if (flive[x]) { if (r[x] != FAIL) MUST0(GRendaccess(r[x]), "GRendaccess of a live image id"); if (g[x] != FAIL) MUST0(GRend(g[x]), "GRend of a live GR id"); MUST0(Hclose(f[x]), "Hclose of a file id whose GR session is ended"); }
+    recreate_check(p);
+}
+
+/* two Hopen ids of one path, one vdata (stored in linked blocks, or contiguous) attached through both */
+static void scen_vs2(const char *p)
+{
+    static int32 rec[40]; int nrec = 40; for (int i = 0; i < nrec; i++) rec[i] = 5000 + i * 3;
+    int linked = hk_chance(60);
+    int32 fid = Hopen(p, DFACC_CREATE, 0); if (fid == FAIL || Vstart(fid) == FAIL) { scen_fail("build", "Hopen/Vstart"); return; }
+    int32 vs = VSattach(fid, -1, "w"); VSfdefine(vs, "v", DFNT_INT32, 1); VSsetfields(vs, "v"); if (linked) VSsetblocksize(vs, 32);
+    int first = linked ? 10 : nrec; if (VSwrite(vs, (uint8 *)rec, first, FULL_INTERLACE) != first) scen_fail("build", "VSwrite"); int32 ref = VSQueryref(vs); VSdetach(vs);
+    if (linked) { uint8 b[20]; wl_fill(b, 20, 3); Hputelement(fid, 1000, 1, b, 20);   /* something after the vdata: appending converts it to linked blocks */
+        vs = VSattach(fid, ref, "w"); VSsetfields(vs, "v"); VSseek(vs, first - 1); { int32 one; VSread(vs, (uint8 *)&one, 1, FULL_INTERLACE); }
+        if (VSwrite(vs, (uint8 *)(rec + first), nrec - first, FULL_INTERLACE) != nrec - first) scen_fail("build", "VSwrite (append)"); VSdetach(vs); }
+    if (Vend(fid) == FAIL || Hclose(fid) == FAIL) { scen_fail("build", "Vend/Hclose"); return; }
+    int32 f[2], v[2] = {FAIL, FAIL}; int flive[2] = {1, 1}, vst[2] = {0, 0};
+    for (int x = 0; x < 2; x++) { f[x] = Hopen(p, DFACC_READ, 0); if (f[x] == FAIL) { scen_fail("open-failed", "Hopen"); return; } }
+    for (int step = 0; step < 30 && (flive[0] || flive[1]); step++) {
+        int x = (int)hk_range(0, 1); if (!flive[x]) x = 1 - x;
+        int c = (int)hk_range(0, 99);
+        if (!vst[x]) { if (c < 85) { if (Vstart(f[x]) == FAIL) scen_fail("start-failed", "Vstart on a live file id fails"); else vst[x] = 1; } else { MUST0(Hclose(f[x]), "Hclose of a file id whose Vset session is ended"); flive[x] = 0; } continue; }
+        if (v[x] == FAIL) { if (c < 80) { v[x] = VSattach(f[x], ref, "r"); if (v[x] == FAIL || VSsetfields(v[x], "v") == FAIL) scen_fail("select-failed", "VSattach(r) through a live file id fails"); } else { MUST0(Vend(f[x]), "Vend with no vdata attached"); vst[x] = 0; } continue; }
+        if (c < 60) { int32 out[40]; int at = (int)hk_range(0, nrec - 1), n = (int)hk_range(1, nrec - at);
+            if (VSseek(v[x], at) == FAIL || VSread(v[x], (uint8 *)out, n, FULL_INTERLACE) != n) scen_fail("read-failed", "VSseek/VSread through a live vdata id fails (other file id %s)", flive[1 - x] ? "open" : "closed");
+            else if (memcmp(out, rec + at, sizeof(int32) * (size_t)n)) scen_fail("wrong-data", "VSread through a live vdata id delivers other records than the vdata holds (other file id %s)", flive[1 - x] ? "open" : "closed"); }
+        else if (c < 72) { /* the vdata holds an access element through THIS file id: the close must be refused and change nothing */
+            if (Hclose(f[x]) != FAIL) { scen_fail("close-under-own-aid", "Hclose of a file id succeeds while a vdata is attached through it"); flive[x] = 0; v[x] = FAIL; vst[x] = 0; } }
+        else { MUST0(VSdetach(v[x]), "VSdetach of a live vdata id"); v[x] = FAIL; }
+    }
+    for (int x = 0; x < 2; x++) if (flive[x]) { if (v[x] != FAIL) MUST0(VSdetach(v[x]), "VSdetach of a live vdata id"); if (vst[x]) MUST0(Vend(f[x]), "Vend"); MUST0(Hclose(f[x]), "Hclose of a file id whose Vset session is ended"); }
+    recreate_check(p);
+}
+
+static void run_scenario(int k, int which)
+{
+    static const char *names[] = {"hshare", "sd2", "gr2", "vs2"}; static void (*fns[])(const char *) = {scen_hshare, scen_sd2, scen_gr2, scen_vs2};
+    static int serial; char nm[64]; snprintf(nm, sizeof nm, "ids%d_s%d_%s.hdf", k, serial++, names[which]);
+    const char *p = hk_tmp(nm); unlink(p);
+    if (!scen_flag) { scen_flag = mmap(NULL, sizeof(int), PROT_READ | PROT_WRITE, MAP_SHARED | MAP_ANONYMOUS, -1, 0); if (scen_flag == MAP_FAILED) { scen_flag = NULL; return; } }
+    *scen_flag = 0; scen_name = names[which];
+    int pid = probe_begin();
+    if (pid == 0) { setvbuf(stdout, NULL, _IOLBF, 0); close(2); fns[which](p); fflush(stdout); _exit(0); }
+    int st = 0; waitpid(pid, &st, 0);
+    if (!(WIFEXITED(st) && WEXITSTATUS(st) == 0)) {
+        if (*scen_flag) hk_fail(COOKIE_KEY, "scenario %s: a read / write / Hendaccess through a VALID access id of a chunked element crashes after the access id that opened the element first (same file id) was ended", names[which]);
+        else { char key[96]; snprintf(key, sizeof key, "ids-two-handles:%s:crash", names[which]); hk_fail(key, "scenario %s: a call on a valid handle crashes (sanitizer report or signal in the forked child)", names[which]); } }
+    hk_stat(names[which], 1);
+    if (!getenv("HK_KEEP")) unlink(p);
+}
+
 /* ------------------------------------------------------------------ the case */
 static void run_case(int k)
 {
     char nm[64];
     for (int i = 0; i < 4; i++) { snprintf(nm, sizeof nm, "ids%d_%d.hdf", k, i); snprintf(paths[i], sizeof paths[i], "%s", hk_tmp(nm)); unlink(paths[i]); open_cnt[i] = 0; }
     if (prep_rich(paths[0]) == FAIL || prep_h(paths[1]) == FAIL || prep_h(paths[2]) == FAIL) { hk_fail("ids-build", "could not build the case files"); return; }
-    { /* tag 1500: ordinary, linked, linked, compressed, ordinary, chunked, compressed, ordinary, linked - every transition of a walk */
-      static const char kinds[] = "OLLCOKCOL"; uint8 b[256]; int32 fid = Hopen(paths[0], DFACC_RDWR, 0);
-      for (int i = 0; kinds[i] && fid != FAIL; i++) { uint16 ref = (uint16)(i + 1); int32 aid = FAIL; wl_fill(b, 256, i);
-          switch (kinds[i]) {
-              case 'O': Hputelement(fid, 1500, ref, b, 40 + i); break;
-              case 'L': aid = HLcreate(fid, 1500, ref, 16, 2); break;
-              case 'C': { comp_info ci; model_info mi; memset(&ci, 0, sizeof ci); memset(&mi, 0, sizeof mi); aid = HCcreate(fid, 1500, ref, COMP_MODEL_STDIO, &mi, COMP_CODE_RLE, &ci); } break;
-              default: { HCHUNK_DEF c; DIM_DEF pd[1]; uint8 fill = 0; memset(&c, 0, sizeof c); c.num_dims = 1; c.nt_size = 1; c.chunk_size = 8; c.pdims = pd; c.comp_type = COMP_CODE_NONE; c.model_type = COMP_MODEL_STDIO;
-                         pd[0].dim_length = 24; pd[0].chunk_length = 8; pd[0].distrib_type = 1; aid = HMCcreate(fid, 1500, ref, 1, 1, &fill, &c); } break; }
-          if (aid != FAIL) { Hwrite(aid, 24, b); Hendaccess(aid); } else if (kinds[i] != 'O') hk_fail("ids-build", "special element %c not created", kinds[i]); }
+    { /* tag 1500: ordinary, linked, linked, compressed, ordinary, chunked, compressed, ordinary, linked, chunked+compressed - every
+         transition of a walk, every kind of special information */
+      int32 fid = Hopen(paths[0], DFACC_RDWR, 0);
+      for (int i = 0; kinds[i] && fid != FAIL; i++) { ser_len[i] = kinds[i] == 'O' ? 40 + i : SPLEN; wl_fill(ser_data[i], 64, i);
+          if (mk_elem(fid, 1500, (uint16)(i + 1), kinds[i], ser_data[i], ser_len[i]) == FAIL) hk_fail("ids-build", "element %c of the series not created", kinds[i]); }
       if (fid == FAIL || Hclose(fid) == FAIL) { hk_fail("ids-build", "could not add the mixed series"); return; } }
     nfid = naid = 0; crash_seen = 0;
     int nops = (int)hk_range(40, 100); int orphaned = 0;
@@ -249,6 +634,9 @@ static void run_case(int k)
             printf("T ids close %s => %s\n", hb, r == FAIL ? "fail" : "ok");
             if (f < nfid && f_live[f]) {
                 filerec_t *fr = NULL; for (int q = 0; q < nfid; q++) if (q != f && f_live[q] && f_path[q] == f_path[f]) fr = HAatom_object(fidv[q]);
+                int own_h = caller_owns(f);
+                if (r == FAIL && !own_h) hk_fail("ids-close-refused-without-own-aid", "Hclose of a live file id fails although every access element the caller started through it has been ended");
+                if (r != FAIL && own_h) hk_fail("ids-close-under-own-aid", "Hclose of a file id succeeds while an access element started through it is attached");
                 if (r != FAIL) { f_live[f] = 0; open_cnt[f_path[f]]--; if (owns) orphaned = 1; }
                 else if (!owns && open_cnt[f_path[f]] > 1) hk_fail("ids-close-rejected", "Hclose of a live file id that owns no access element fails although other ids keep the file open");
                 (void)fr;
@@ -258,11 +646,13 @@ static void run_case(int k)
         }
         if (op < 55) {          /* startaccess */
             if (hk_chance(3) && naid > 0) { int a = pick_a(); if (a < naid && a_live[a]) { toka(hb, a); const char *tk; WRONGKIND("Hstartread(access id)", Hstartread(aidv[a], 1000, 1), tk); printf("T ids startaccess %s 1 0 => %s\n", hb, tk); } continue; }
-            int f = pick_f(); tokf(hb, f); int write = hk_chance(35); uint16 ref = (uint16)(hk_chance(80) ? hk_range(1, 2) : 9);
+            int f = pick_f(); tokf(hb, f);
+            if (f < nfid && f_path[f] == 0 && hk_chance(30)) { int r1 = hot_ref(); sp_start(f, r1, f_live[f] && hk_chance(25) && !is_chunked(r1)); continue; }
+            int write = hk_chance(35); uint16 ref = (uint16)(hk_chance(80) ? hk_range(1, 2) : 9);
             int found = write ? 1 : (f < nfid && f_live[f] ? Hexist(fidv[f], 1000, ref) != FAIL : 0);
             int32 id = Hstartaccess(F(f), 1000, ref, write ? DFACC_RDWR : DFACC_READ);
             printf("T ids startaccess %s %d %d => ", hb, found, write);
-            if (id == FAIL) printf("fail\n"); else { aidv[naid] = id; a_live[naid] = 1; printf("a%d\n", naid++); if (!(f < nfid && f_live[f])) hk_fail("ids-stale-accepted:Hstartaccess", "Hstartaccess on a released / never issued file id succeeds"); }
+            if (id == FAIL) printf("fail\n"); else { printf("a%d\n", new_aid(id, f, 0, write)); if (!(f < nfid && f_live[f])) hk_fail("ids-stale-accepted:Hstartaccess", "Hstartaccess on a released / never issued file id succeeds"); }
             continue;
         }
         if (op < 75) {          /* endaccess */
@@ -270,7 +660,7 @@ static void run_case(int k)
             int a = pick_a(); toka(hb, a);
             long r = Hendaccess(A(a));
             printf("T ids endaccess %s => %s\n", hb, r == FAIL ? "fail" : "ok");
-            if (a < naid && a_live[a]) { a_live[a] = 0; if (r == FAIL) { hk_stat("endaccess_failed_on_live_aid", 1); if (!orphaned) hk_fail("ids-release-failed:Hendaccess", "Hendaccess of a live access id fails although its file id was never closed"); } }
+            if (a < naid && a_live[a]) { mark_ended(a); if (r == FAIL) { hk_stat("endaccess_failed_on_live_aid", 1); if (!orphaned) hk_fail("ids-release-failed:Hendaccess", "Hendaccess of a live access id fails although its file id was never closed"); } }
             else if (r != FAIL) hk_fail("ids-double-release:Hendaccess", "Hendaccess of a released / never issued id succeeds");
             continue;
         }
@@ -283,7 +673,9 @@ static void run_case(int k)
         }
         if (op < 89) {          /* use an access id */
             if (hk_chance(5)) { int f = pick_live(f_live, nfid); if (f >= 0) { tokf(hb, f); const char *tk; uint8 buf[8]; if (hk_chance(50)) WRONGKIND("Hread(file id)", Hread(fidv[f], 4, buf), tk); else WRONGKIND("Htell(file id)", Htell(fidv[f]), tk); printf("T ids useaid %s => %s\n", hb, tk); } continue; }
-            int a = pick_a(); toka(hb, a); long r = Htell(A(a));
+            int a = pick_a(); toka(hb, a);
+            if (a < naid && a_live[a] && a_ref[a] > 0 && hk_chance(70)) { if (hk_chance(75)) sp_read(a); else sp_write(a); continue; }
+            long r = Htell(A(a));
             printf("T ids useaid %s => %s\n", hb, r == FAIL ? "fail" : "ok");
             if (!(a < naid && a_live[a]) && r != FAIL) hk_fail("ids-stale-accepted:Htell", "an inquiry on a released / never issued access id succeeds");
             continue;
@@ -292,12 +684,15 @@ static void run_case(int k)
         /* a block on another interface, on a live file id */
         { int f = pick_live(f_live, nfid); if (f < 0) continue; filerec_t *fr = HAatom_object(fidv[f]); int wr = fr && (fr->access & DFACC_WRITE);
           if (f_path[f] == 0 && open_cnt[0] == 1 && fr && fr->attach == 0 && hk_chance(45) && naid < MAXH - 8 && nfid < MAXH - 8) { walk_block(f); continue; }
+          if (hk_chance(35)) { shared_block(); continue; }
+          if (hk_chance(30)) { run_scenario(k, (int)hk_range(0, 3)); continue; }
           switch ((int)hk_range(0, 4)) { case 0: if (f_path[f] == 0) block_v(fidv[f]); break; case 1: if (f_path[f] == 0) block_gr(fidv[f]); break; case 2: if (f_path[f] == 0) block_an(fidv[f]); break;
               case 3: block_bit(fidv[f], wr); break; default: if (open_cnt[0] == 0) block_sd(k); break; } }
     }
     /* teardown in random order: access ids, then file ids; what cannot be released is shown by the `live` line */
     for (int pass = 0; pass < 2; pass++)
-        for (int n = 0; n < MAXH; n++) { int a = pick_live(a_live, naid); if (a < 0) break; toka(hb, a); long r = Hendaccess(aidv[a]); printf("T ids endaccess %s => %s\n", hb, r == FAIL ? "fail" : "ok"); a_live[a] = 0; }
+        for (int n = 0; n < MAXH; n++) { int a = pick_live(a_live, naid); if (a < 0) break; toka(hb, a); long r = Hendaccess(aidv[a]); printf("T ids endaccess %s => %s\n", hb, r == FAIL ? "fail" : "ok"); mark_ended(a);
+            if (r == FAIL && !orphaned) hk_fail("ids-release-failed:Hendaccess", "Hendaccess of a live access id fails although its file id was never closed (teardown)"); }
     for (int n = 0; n < MAXH; n++) { int f = pick_live(f_live, nfid); if (f < 0) break; tokf(hb, f); long r = Hclose(fidv[f]); printf("T ids close %s => %s\n", hb, r == FAIL ? "fail" : "ok"); f_live[f] = 0; open_cnt[f_path[f]]--;
         if (r == FAIL) { if (orphaned) hk_fail("ids-close-under-aid-leaks-attach", "a file can no longer be closed: Hclose of the file id under which an access element was open succeeded earlier (another id kept the file open), the later Hendaccess failed without attach--"); else hk_fail("ids-release-failed:Hclose", "final Hclose fails with no access element attached"); } }
     /* what the atom groups still hold */
@@ -314,9 +709,13 @@ static void run_case(int k)
         t_counts(f); f_live[f] = 0;
         uint8 buf[400]; if (Hgetelement(id, 1000, 1, buf) != 100) hk_fail("ids-reopen-after-teardown", "element (1000,1) is not readable after the teardown");
         tokf(hb, f); long r = Hclose(id); printf("T ids close %s => %s\n", hb, r == FAIL ? "fail" : "ok");
+        /* ... and the library must not count the path as open any more: DFACC_CREATE is refused for a path that is open */
+        id = Hopen(paths[p], DFACC_CREATE, 0); printf("T ids open %d %d 1 => ", p, DFACC_CREATE);
+        if (id == FAIL) { printf("fail\n"); hk_fail("ids-state-retained-after-release", "Hopen(DFACC_CREATE) fails after every handle of the file was released (error %d)", (int)HEvalue(1)); continue; }
+        fidv[nfid] = id; printf("f%d\n", nfid); f = nfid++; f_path[f] = p; tokf(hb, f); r = Hclose(id); printf("T ids close %s => %s\n", hb, r == FAIL ? "fail" : "ok");
     }
     hk_stat("ids_ops", nops); if (orphaned) hk_stat("orphaned_cases", 1);
-    if (!getenv("HK_KEEP")) for (int i = 0; i < 4; i++) unlink(paths[i]);
+    if (!getenv("HK_KEEP")) { for (int i = 0; i < 4; i++) unlink(paths[i]); char ext[900]; snprintf(ext, sizeof ext, "%s.x11", paths[0]); unlink(ext); }
 }
 
 int main(int argc, char **argv) { return hk_main(argc, argv, "ids"); }
